@@ -241,9 +241,11 @@ func genReadsGated(r *core.Rand) string {
 	n := r.Intn(7)
 	var steps []string
 	for k := 0; k < n; k++ {
-		sz := []int{0, 1, 9, 100, 4096, 32768, 65535, 65536, 65537, 65536 + r.Range(1, 9000), 65537, 65536 + r.Range(1, 900),
-			r.Range(1, 70000), r.Range(1, 5000), r.Range(1, 300), 131072}[r.Intn(16)]
-		if r.Chance(1, 60) {
+		sz := []int{0, 1, 9, 100, 4096, r.Range(1, 5000), r.Range(1, 300), r.Range(1, 40000)}[r.Intn(8)]
+		if r.Chance(1, 4) { // around and above 64 KiB
+			sz = []int{32768, 65535, 65536, 65537, 65537, 65536 + r.Range(1, 900), 65536 + r.Range(1, 9000), 131072}[r.Intn(8)]
+		}
+		if r.Chance(1, 80) {
 			sz = []int{1 << 20, r.Range(131072, 1<<20), 1<<20 + 1}[r.Intn(3)]
 		}
 		if sz > 65536 {
